@@ -9,6 +9,7 @@ import (
 	"os"
 	"strconv"
 	"strings"
+	"time"
 
 	zygo "github.com/glycerine/zygomys/v9/zygo"
 )
@@ -160,7 +161,28 @@ type outcome struct {
 }
 
 // evalSafe evaluates text, recovering panics that escape the library.
-func evalSafe(env *zygo.Zlisp, text string) (o outcome) {
+// evalSafe evaluates text with the step budget armed and a wall-clock limit: when the limit
+// passes, the budget is set to zero so that the evaluation stops at its next VM step.
+func evalSafe(env *zygo.Zlisp, text string) outcome {
+	done := make(chan outcome, 1)
+	go func() { done <- evalSafe1(env, text) }()
+	select {
+	case o := <-done:
+		return o
+	case <-time.After(wallLimit):
+		zygo.VerifSetBudget(0)
+		select {
+		case <-done:
+		case <-time.After(2 * wallLimit):
+		}
+		zygo.VerifSetBudget(-1)
+		return outcome{Kind: "budget", Err: "verif: step budget exhausted (wall clock)"}
+	}
+}
+
+const wallLimit = 40 * time.Second
+
+func evalSafe1(env *zygo.Zlisp, text string) (o outcome) {
 	zygo.VerifSetBudget(defaultBudget)
 	defer zygo.VerifSetBudget(-1)
 	defer func() {
